@@ -229,13 +229,29 @@ def kind_flow(ctx, d3):
         hs = [n for n in walk_no_nested(f.node) if isinstance(n, ast.ExceptHandler)]
         okk = False
         if len(hs) == 1:
+            # paths through the handler: under "phase is 'g'" the phase stored is 'l' and vice versa; any other phase re-raises
+            hfn = ast.FunctionDef(name='_handler', args=ast.arguments(posonlyargs=[], args=[], kwonlyargs=[], kw_defaults=[], defaults=[]),
+                                  body=hs[0].body, decorator_list=[], lineno=hs[0].lineno, col_offset=0)
+            hps, _ = run_paths(hfn, follow_except=False)
             flips = {}
-            for n in ast.walk(hs[0]):
-                if isinstance(n, ast.If) and isinstance(n.test, ast.Compare) and isinstance(n.test.comparators[0], ast.Constant):
-                    for b in n.body:
-                        if isinstance(b, ast.Assign) and src(b.targets[0]) == 'self.phase' and isinstance(b.value, ast.Constant):
-                            flips[n.test.comparators[0].value] = b.value.value
-            okk = flips == {'g': 'l', 'l': 'g'}
+            okk = True
+            for p in hps:
+                asserted = None
+                for tmap, taken, test in p.rconds:
+                    txt = tmap.get(id(test), '')
+                    mm = re.fullmatch(r"\((self\.phase(?:\.lower\(\))?) == '([gl])'\)", txt)
+                    if mm and taken:
+                        asserted = mm.group(2)
+                st_ = [e for e in p.events if e.kind == 'store' and e.target == 'self.phase']
+                if p.raised:
+                    if asserted is not None and not st_:
+                        okk = False     # a fluid phase must be retried, not re-raised
+                    continue
+                if asserted is None or not st_:
+                    okk = False
+                    continue
+                flips[asserted] = st_[-1].value.pretty().strip("'\"")
+            okk = okk and flips == {'g': 'l', 'l': 'g'}
         if okk:
             d3.ok('Stream.%s.setter' % prop, 'fallback flips phase g<->l before solving again', f)
         else:
